@@ -184,7 +184,7 @@ NEEDS = {
             'two declarations in one step, different hash seeds',
 }
 # checks of other properties that also see a change
-ALSO = {'C01c': ['C07'], 'C11c': ['C15'], 'C10d': ['C04'], 'C17c': ['C16'],
+ALSO = {'C02c': ['C13'], 'C02d': ['C14'], 'C06d': ['C02'], 'C01c': ['C07'], 'C11c': ['C15'], 'C10d': ['C04'], 'C17c': ['C16'],
         'C18c': ['C05'], 'C05d': ['C01'], 'C03d': ['C17'],
         'C01b': ['C09'], 'C02b': ['C04'], 'C04b': ['C02'], 'C15b': ['C11'],
         'C13a': ['C12'], 'C11b': ['C17'], 'C17b': ['C11']}
